@@ -3,10 +3,9 @@ Facts about the TRXD codec model and the hopping model that the world proofs (C0
   * `RxMsg.gen_msg` returns octets or raises ValueError, nothing else (for every object state);
   * `TxMsg.trans` cannot fail on a byte-valued burst; what `TxMsg.parse_msg` leaves in the object;
   * `HoppingParams.resolve` is total on every object `__init__` accepted (from Lemmas/Hopping).
-The codec statements are proved here against the draft Model/Trxd.lean of this clone; with the
-codec worker's final Model/Trxd.lean + Lemmas/Trxd.lean use docs/WorldCodec_after_trxd_merge.lean
-(same three statements, derived from validate_iff / validate_err / genMsg_ok).
+The codec statements are derived from Lemmas/Trxd (validate_iff / validate_err / genMsg_ok).
 -/
+import OsmoVerif.Lemmas.Trxd
 import OsmoVerif.Model.Trxd
 import OsmoVerif.Lemmas.Hopping
 namespace OsmoVerif.Trxd
@@ -17,275 +16,19 @@ theorem knownVersions_contains {ver : Int} (h : Gen.Trxd.knownVersions.contains 
   simp [Gen.Trxd.knownVersions] at h
   exact h
 
-theorem validateCommon_ok {ver : Int} {fn tn : Option Int} (h : validateCommon ver fn tn = .ok ()) :
-    (ver = 0 ∨ ver = 1) ∧ (∃ f, fn = some f ∧ 0 ≤ f ∧ f < 2715648) ∧ (∃ t, tn = some t ∧ 0 ≤ t ∧ t ≤ 7) := by
-  have hH : Gen.Trxd.gsmHyperframe = 2715648 := by decide
-  unfold validateCommon at h
-  by_cases hk : Gen.Trxd.knownVersions.contains ver = true
-  · rw [if_neg (not_not_intro hk)] at h
-    cases fn with
-    | none => cases h
-    | some f =>
-      cases tn with
-      | none => 
-        simp only at h
-        split at h <;> cases h
-      | some t =>
-        simp only at h
-        split at h
-        · cases h
-        · split at h
-          · cases h
-          · exact ⟨knownVersions_contains hk, ⟨f, rfl, by omega, by omega⟩, ⟨t, rfl, by omega, by omega⟩⟩
-  · rw [if_pos hk] at h; cases h
-
-theorem validateCommon_err {ver : Int} {fn tn : Option Int} {e : Exc}
-    (h : validateCommon ver fn tn = .error e) : e = .valueError := by
-  unfold validateCommon at h
-  repeat' split at h
-  all_goals first | (cases h; rfl) | cases h
-
-theorem bytearrayAppend_ok (buf : Bytes) {x : Int} (h0 : 0 ≤ x) (h1 : x < 256) :
-    bytearrayAppend buf x = .ok (buf ++ [x.toNat]) := by
-  simp only [bytearrayAppend, h0, h1, and_self, if_true]
-
-theorem packBE32u_ok {x : Int} (h0 : 0 ≤ x) (h1 : x < 4294967296) : ∃ b, packBE32u x = .ok b := by
-  simp only [packBE32u, h0, h1, and_self, if_true]; exact ⟨_, rfl⟩
-
-theorem packBE16s_ok {x : Int} (h0 : -32768 ≤ x) (h1 : x ≤ 32767) : ∃ b, packBE16s x = .ok b := by
-  simp only [packBE16s, h0, h1, and_self, if_true]; exact ⟨_, rfl⟩
-
-theorem genCommon_ok {ver : Int} {fn tn : Option Int} (h : validateCommon ver fn tn = .ok ()) :
-    ∃ b, genCommon ver fn tn = .ok b := by
-  obtain ⟨hv, ⟨f, rfl, hf0, hf1⟩, ⟨t, rfl, ht0, ht1⟩⟩ := validateCommon_ok h
-  obtain ⟨b, hb⟩ := packBE32u_ok hf0 (show f < 4294967296 by omega)
-  have : 0 ≤ 16 * ver + t % 8 ∧ 16 * ver + t % 8 < 256 := by omega
-  simp only [genCommon, bytearrayAppend_ok [] this.1 this.2, hb]
-  exact ⟨_, rfl⟩
-
-theorem translateGo_total {α : Type} (tab : List α) (hl : tab.length = 256) (xs : Bytes)
-    (hx : ∀ x ∈ xs, x < 256) : ∃ r, translateGo tab xs = .ok r := by
-  induction xs with
-  | nil => exact ⟨[], rfl⟩
-  | cons x xs ih =>
-    obtain ⟨r, hr⟩ := ih (fun y hy => hx y (List.mem_cons_of_mem _ hy))
-    have hlt : x < tab.length := by rw [hl]; exact hx x List.mem_cons_self
-    simp only [translateGo, List.getElem?_eq_getElem hlt, hr]
-    exact ⟨_, rfl⟩
-
-theorem translate_total {α : Type} (tab : List α) (hl : tab.length = 256) (xs : Bytes)
-    (hx : ∀ x ∈ xs, x < 256) : ∃ r, translate tab xs = .ok r := by
-  simp only [translate, hl, ne_eq, not_true_eq_false, if_false]
-  exact translateGo_total tab hl xs hx
-
-theorem sbit2usbit_total (b : List Int) : ∃ u, sbit2usbit b = .ok u := by
-  apply translate_total _ (by decide +kernel)
-  intro x hx
-  obtain ⟨s, _, rfl⟩ := List.mem_map.mp hx
-  unfold sbyte; omega
-
-theorem ubit2sbit_total (b : Bytes) (hb : ∀ x ∈ b, x < 256) : ∃ s, ubit2sbit b = .ok s :=
-  translate_total _ (by decide +kernel) b hb
-
-theorem coding_shift_lt : ∀ mod : Modulation, mod.coding <<< 3 < 256 := by decide
-
 namespace RxMsg
-
-theorem validateMeas_err {m : RxMsg} {e : Exc} (h : m.validateMeas = .error e) : e = .valueError := by
-  unfold validateMeas at h
-  repeat' split at h
-  all_goals first | (cases h; rfl) | cases h
-
-theorem validateMts_err {m : RxMsg} {e : Exc} (h : m.validateMts = .error e) : e = .valueError := by
-  unfold validateMts at h
-  repeat' split at h
-  all_goals first | (cases h; rfl) | cases h
-
-theorem validateCi_err {m : RxMsg} {e : Exc} (h : m.validateCi = .error e) : e = .valueError := by
-  unfold validateCi at h
-  repeat' split at h
-  all_goals first | (cases h; rfl) | cases h
-
-theorem validateMeas_ok {m : RxMsg} (h : m.validateMeas = .ok ()) :
-    (∃ r, m.rssi = some r ∧ -255 ≤ r ∧ r ≤ 0) ∧ (∃ t, m.toa256 = some t ∧ -32768 ≤ t ∧ t ≤ 32767) := by
-  have h1 : Gen.Trxd.rssiMin = -120 := by decide
-  have h2 : Gen.Trxd.rssiMax = -47 := by decide
-  have h3 : Gen.Trxd.toa256Min = -32768 := by decide
-  have h4 : Gen.Trxd.toa256Max = 32767 := by decide
-  unfold validateMeas at h
-  cases hr : m.rssi with
-  | none => rw [hr] at h; cases h
-  | some r =>
-    rw [hr] at h
-    simp only at h
-    split at h
-    · cases h
-    · cases ht : m.toa256 with
-      | none => rw [ht] at h; cases h
-      | some t =>
-        rw [ht] at h
-        simp only at h
-        split at h
-        · cases h
-        · exact ⟨⟨r, rfl, by omega, by omega⟩, ⟨t, rfl, by omega, by omega⟩⟩
-
-theorem validateCi_ok {m : RxMsg} (h : m.validateCi = .ok ()) (hv : m.ver ≥ 1) :
-    ∃ c, m.ci = some c ∧ -32768 ≤ c ∧ c ≤ 32767 := by
-  have h1 : Gen.Trxd.ciMin = -1280 := by decide
-  have h2 : Gen.Trxd.ciMax = 1280 := by decide
-  unfold validateCi at h
-  rw [if_pos hv] at h
-  cases hc : m.ci with
-  | none => rw [hc] at h; cases h
-  | some c =>
-    rw [hc] at h
-    simp only at h
-    split at h
-    · cases h
-    · exact ⟨c, rfl, by omega, by omega⟩
-
-theorem validateMts_ok {m : RxMsg} (h : m.validateMts = .ok ()) (hv : m.ver ≥ 1) (hn : m.nopeInd = false) :
-    ∃ mod set tsc, m.modType = some mod ∧ m.tscSet = some set ∧ m.tsc = some tsc ∧ 0 ≤ set ∧ set < 4 := by
-  unfold validateMts at h
-  rw [if_pos ⟨hv, hn⟩] at h
-  cases hm : m.modType with
-  | none => rw [hm] at h; cases h
-  | some mod =>
-    rw [hm] at h
-    simp only at h
-    cases hs : m.tscSet with
-    | none => rw [hs] at h; cases h
-    | some set =>
-      rw [hs] at h
-      simp only at h
-      have hset : 0 ≤ set ∧ set < 4 := by
-        by_cases hg : mod = Modulation.gmsk
-        · simp only [hg, if_true] at h
-          by_cases hc : 0 ≤ set ∧ set < 4
-          · exact hc
-          · rw [if_pos hc] at h; cases h
-        · simp only [hg, if_false] at h
-          by_cases hc : 0 ≤ set ∧ set < 2
-          · exact ⟨hc.1, by omega⟩
-          · rw [if_pos hc] at h; cases h
-      cases ht : m.tsc with
-      | none =>
-        rw [ht] at h
-        by_cases hc : (if mod = Modulation.gmsk then ¬ (0 ≤ set ∧ set < 4) else ¬ (0 ≤ set ∧ set < 2))
-        · rw [if_pos hc] at h; cases h
-        · rw [if_neg hc] at h; cases h
-      | some tsc => exact ⟨mod, set, tsc, rfl, rfl, rfl, hset⟩
-
-theorem validateBurst_err {m : RxMsg} {e : Exc} (hm : m.validateMts = .ok ())
-    (h : m.validateBurst = .error e) : e = .valueError := by
-  unfold validateBurst at h
-  split at h
-  · unfold validateBurstV0 at h
-    repeat' split at h
-    all_goals first | (cases h; rfl) | cases h
-  · split at h
-    · rename_i hv
-      unfold validateBurstV1 at h
-      split at h
-      · cases h
-      · cases h; rfl
-      · cases h; rfl
-      · rename_i hn hb
-        obtain ⟨mod, _, _, hmod, _⟩ := validateMts_ok hm hv hn
-        rw [hmod] at h
-        simp only at h
-        split at h
-        · cases h; rfl
-        · cases h
-    · cases h
-
-theorem validate_err {m : RxMsg} {e : Exc} (h : m.validate = .error e) : e = .valueError := by
-  unfold validate at h
-  split at h
-  · cases h; exact validateCommon_err ‹_›
-  · split at h
-    · cases h; exact validateMeas_err ‹_›
-    · split at h
-      · cases h; exact validateMts_err ‹_›
-      · split at h
-        · cases h; exact validateCi_err ‹_›
-        · exact validateBurst_err ‹_› h
-
-
-theorem appendMts_ok {m : RxMsg} (buf : Bytes) (hm : m.validateMts = .ok ()) (hv : m.ver ≥ 1) :
-    ∃ b, m.appendMts buf = .ok b := by
-  unfold appendMts
-  cases hn : m.nopeInd with
-  | true =>
-    simp only [if_true]
-    exact ⟨_, bytearrayAppend_ok buf (by decide) (by decide)⟩
-  | false =>
-    obtain ⟨mod, set, tsc, h1, h2, h3, hs0, hs1⟩ := validateMts_ok hm hv hn
-    have hneg : ¬ set < 0 := by omega
-    simp only [Bool.false_eq_true, if_false, h1, h2, h3, hneg]
-    refine ⟨_, bytearrayAppend_ok buf (by omega) ?_⟩
-    have a1 : (tsc % 8).toNat < 2 ^ 8 := by omega
-    have a2 : mod.coding <<< 3 < 2 ^ 8 := coding_shift_lt mod
-    have a3 : set.toNat <<< 3 < 2 ^ 8 := by rw [Nat.shiftLeft_eq]; omega
-    have := Nat.or_lt_two_pow (Nat.or_lt_two_pow a1 a2) a3
-    omega
-
-theorem appendHdrTo_ok {m : RxMsg} (buf : Bytes) (h1 : m.validateMeas = .ok ())
-    (h2 : m.validateMts = .ok ()) (h3 : m.validateCi = .ok ()) : ∃ b, m.appendHdrTo buf = .ok b := by
-  obtain ⟨⟨r, hr, hr0, hr1⟩, ⟨t, ht, ht0, ht1⟩⟩ := validateMeas_ok h1
-  obtain ⟨tb, htb⟩ := packBE16s_ok ht0 ht1
-  unfold appendHdrTo
-  simp only [hr, ht, bytearrayAppend_ok buf (show 0 ≤ -r by omega) (show -r < 256 by omega), htb]
-  by_cases hv : m.ver ≥ 1
-  · obtain ⟨mb, hmb⟩ := appendMts_ok (buf ++ [(-r).toNat] ++ tb) h2 hv
-    obtain ⟨c, hc, hc0, hc1⟩ := validateCi_ok h3 hv
-    obtain ⟨cb, hcb⟩ := packBE16s_ok hc0 hc1
-    simp only [hv, if_true, hmb, hc, hcb]
-    exact ⟨_, rfl⟩
-  · simp only [hv, if_false]
-    exact ⟨_, rfl⟩
-
-/-- `gen_msg` returns the octets or raises ValueError — nothing else (no struct.error, TypeError,
-AttributeError, IndexError), for every object state -/
+/-- `gen_msg` returns the octets or raises ValueError — nothing else, for every object state -/
 theorem genMsg_safe (m : RxMsg) (l : Bool) :
     (∃ b, m.genMsg l = .ok b) ∨ m.genMsg l = .error .valueError := by
-  unfold genMsg
   cases hv : m.validate with
-  | error e => cases validate_err hv; exact .inr rfl
-  | ok u =>
-    left
-    unfold validate at hv
-    cases h0 : validateCommon m.ver m.fn m.tn with
-    | error e => rw [h0] at hv; cases hv
-    | ok u0 =>
-      rw [h0] at hv; simp only at hv
-      cases h1 : m.validateMeas with
-      | error e => rw [h1] at hv; cases hv
-      | ok u1 =>
-        rw [h1] at hv; simp only at hv
-        cases h2 : m.validateMts with
-        | error e => rw [h2] at hv; cases hv
-        | ok u2 =>
-          rw [h2] at hv; simp only at hv
-          cases h3 : m.validateCi with
-          | error e => rw [h3] at hv; cases hv
-          | ok u3 =>
-            obtain ⟨cb, hcb⟩ := genCommon_ok h0
-            obtain ⟨hb, hhb⟩ := appendHdrTo_ok cb h1 h2 h3
-            simp only [hcb, hhb]
-            cases m.burst with
-            | none => exact ⟨_, rfl⟩
-            | some b =>
-              obtain ⟨u, hu⟩ := sbit2usbit_total b
-              simp only [hu]
-              exact ⟨_, rfl⟩
-
+  | ok u => exact .inl (RxMsg.genMsg_ok m l ((RxMsg.validate_iff m).mp hv))
+  | error e =>
+    cases RxMsg.validate_err m e hv
+    right
+    simp only [genMsg, hv, bind, Except.bind]
 end RxMsg
 
 namespace TxMsg
-
-/-- `trans()` of a message with a byte-valued burst cannot fail; the NOPE flag of the result is
-clear only if there was a burst -/
 theorem trans_ok (m : TxMsg) (v : Option Int) (hw : m.WellTyped) :
     ∃ r, m.trans v = .ok r ∧ r.fn = m.fn ∧ (r.nopeInd = false → m.burst.isSome = true) ∧
       r.ver = (match v with | none => m.ver | some v => v) := by
@@ -295,8 +38,11 @@ theorem trans_ok (m : TxMsg) (v : Option Int) (hw : m.WellTyped) :
     refine ⟨_, rfl, rfl, ?_, rfl⟩
     intro h; cases h
   | some b =>
-    obtain ⟨s, hs⟩ := ubit2sbit_total b (hw b (by rw [hb]; exact rfl))
-    simp only [hs]
+    obtain ⟨s, hs, _⟩ := translateGo_total Gen.Trxd.tabUbit2sbit tabUbit2sbit_length b
+      (hw b (by rw [hb]; exact rfl))
+    have hs' : ubit2sbit b = .ok s := by
+      simp only [ubit2sbit, translate, tabUbit2sbit_length, ne_eq, not_true_eq_false, if_false, hs]
+    simp only [hs']
     refine ⟨_, rfl, rfl, ?_, rfl⟩
     intro _; rfl
 
@@ -306,11 +52,9 @@ theorem parseBurst_mem {b : Bytes} {x : Nat} (h : x ∈ parseBurst b) : x ∈ b 
   repeat' split at h
   all_goals first | exact h | exact List.mem_of_mem_take h
 
-/-- what `parse_msg` leaves in the object: frame/timeslot/attenuation set, burst made of octets of
-the datagram -/
 theorem parseMsg_sane {d : Bytes} {m : TxMsg} (h : parseMsg d = .ok m) (hd : ∀ x ∈ d, x < 256) :
     m.fn.isSome = true ∧ m.tn.isSome = true ∧ m.pwr.isSome = true ∧ m.WellTyped := by
-  unfold parseMsg at h
+  simp only [parseMsg, bind, Except.bind, pure, Except.pure, throw, throwThe, MonadExceptOf.throw] at h
   repeat' split at h
   all_goals first
     | (cases h; done)
@@ -320,7 +64,6 @@ theorem parseMsg_sane {d : Bytes} {m : TxMsg} (h : parseMsg d = .ok m) (hd : ∀
        first
          | (cases hb; done)
          | (cases hb; exact hd x (List.mem_of_mem_drop (parseBurst_mem hx))))
-
 end TxMsg
 end OsmoVerif.Trxd
 
